@@ -285,6 +285,7 @@ type pcRes struct {
 	feature   string  // closest boundary feature: "edge" or "vertex"
 	slack     float64 // extra tolerance for the documented accuracy loss of edgeDistance near 90°
 	minOutCos float64 // smallest cos(elevation) over sides the point is outside of and (nearly) in the wedge of
+	minCos    float64 // smallest cos(elevation) over all four sides' great circles
 	wedgeNear bool    // the interior/endpoint decision of the closest side is within 1e-9 of switching
 }
 
@@ -301,10 +302,13 @@ func near90Slack(cosp float64) float64 {
 	return math.Min(24*eps/cosp, 1.2e-7)
 }
 
-func pointQuad(q quad, x hv) (bd2 *big.Float, feature string, slack, minOutCos float64, wedgeNear bool) {
-	minOutCos = 1
+func pointQuad(q quad, x hv) (bd2 *big.Float, feature string, slack, minOutCos, minCos float64, wedgeNear bool) {
+	minOutCos, minCos = 1, 1
 	for k := 0; k < 4; k++ {
 		r := pointArc(x, q.c[k], q.c[(k+1)&3], q.n[k], q.nn[k])
+		if r.cosp < minCos {
+			minCos = r.cosp
+		}
 		if bd2 == nil || r.d2.Cmp(bd2) < 0 {
 			bd2 = r.d2
 			feature = "vertex"
@@ -327,8 +331,8 @@ func pointQuad(q quad, x hv) (bd2 *big.Float, feature string, slack, minOutCos f
 
 func (g *geom) pointCell(p r3.Vector) pcRes {
 	x := hp.Vec(p).Unit()
-	bd2, feat, slack, moc, wn := pointQuad(g.q, x)
-	r := pcRes{inside: g.inside(p), bd2: hp.Float(bd2), feature: feat, slack: slack, minOutCos: moc, wedgeNear: wn}
+	bd2, feat, slack, moc, mc, wn := pointQuad(g.q, x)
+	r := pcRes{inside: g.inside(p), bd2: hp.Float(bd2), feature: feat, slack: slack, minOutCos: moc, minCos: mc, wedgeNear: wn}
 	if !r.inside {
 		r.d2 = r.bd2
 	}
@@ -371,8 +375,8 @@ type ecRes struct {
 // insideA/insideB are the exact membership decisions for the endpoints.
 func edgeQuad(q quad, a, b hv, insideA, insideB bool) ecRes {
 	r := ecRes{minOutCos: 1}
-	bda, _, sa, ca, _ := pointQuad(q, a)
-	bdb, _, sb, cb, _ := pointQuad(q, b)
+	bda, _, sa, ca, _, _ := pointQuad(q, a)
+	bdb, _, sb, cb, _, _ := pointQuad(q, b)
 	r.slack = math.Max(sa, sb)
 	r.minOutCos = math.Min(ca, cb)
 	end := hp.Min(bda, bdb)
